@@ -106,6 +106,11 @@ def insertSortedStr (s : String) : List String → List String
   | [] => [s]
   | x :: xs => if s ≤ x then s :: x :: xs else x :: insertSortedStr s xs
 
+/-- a set value is a list of members up to order and repetition: rendered sorted, without duplicates -/
+def insertSetStr (s : String) : List String → List String
+  | [] => [s]
+  | x :: xs => if s == x then x :: xs else if s ≤ x then s :: x :: xs else x :: insertSetStr s xs
+
 mutual
 def valStr : Nat → Val → String
   | 0, _ => "?"
@@ -115,13 +120,43 @@ def valStr : Nat → Val → String
   | _ + 1, .s x => "s" ++ strHex x
   | f + 1, .ptr v => "& " ++ valStr f v
   | f + 1, .list vs => "[ " ++ valsStr f vs ++ "]"
-  | f + 1, .setv vs => "( " ++ String.join (((vs.map (valStr f)).foldr insertSortedStr []).map (· ++ " ")) ++ ")"
+  | f + 1, .setv vs => "( " ++ String.join (((vs.map (valStr f)).foldr insertSetStr []).map (· ++ " ")) ++ ")"
   | f + 1, .mapv kvs => "< " ++ String.join (((kvs.map fun p => valStr f p.1 ++ " " ++ valStr f p.2).foldr insertSortedStr []).map (· ++ " ")) ++ ">"
   | f + 1, .struct vs => "{ " ++ valsStr f vs ++ "}"
 def valsStr : Nat → List Val → String
   | 0, _ => ""
   | _ + 1, [] => ""
   | f + 1, v :: vs => valStr f v ++ " " ++ valsStr f vs
+end
+
+def pairVals : List Val → List (Val × Val)
+  | k :: v :: r => (k, v) :: pairVals r
+  | _ => []
+
+mutual
+def parseVal : Nat → List String → Option (Val × List String)
+  | 0, _ => none
+  | _ + 1, [] => none
+  | fuel + 1, t :: rest =>
+    if t == "n" then some (.nilv, rest)
+    else if t == "b0" then some (.b false, rest)
+    else if t == "b1" then some (.b true, rest)
+    else if t == "&" then (parseVal fuel rest).map fun (v, r) => (.ptr v, r)
+    else if t == "[" then (parseVals fuel "]" rest).map fun (vs, r) => (.list vs, r)
+    else if t == "(" then (parseVals fuel ")" rest).map fun (vs, r) => (.setv vs, r)
+    else if t == "{" then (parseVals fuel "}" rest).map fun (vs, r) => (.struct vs, r)
+    else if t == "<" then (parseVals fuel ">" rest).map fun (vs, r) => (.mapv (pairVals vs), r)
+    else if t.startsWith "i" then ((t.drop 1).toString.toInt?).map fun x => (.i x, rest)
+    else if t.startsWith "s" then (hexStr (t.drop 1).toString).map fun x => (.s x, rest)
+    else none
+def parseVals : Nat → String → List String → Option (List Val × List String)
+  | 0, _, _ => none
+  | _ + 1, _, [] => none
+  | fuel + 1, close, t :: rest =>
+    if t == close then some ([], rest)
+    else match parseVal fuel (t :: rest) with
+      | some (v, r) => (parseVals fuel close r).map fun (vs, r') => (v :: vs, r')
+      | none => none
 end
 
 def chainSpecs : String → Option (List (List String))
@@ -191,7 +226,7 @@ def handleTf : List String → String
       match chainOfSpecs (fuelFor toks) (fun _ _ => .err "no parser") specs with
       | some ms =>
         match translate (fuelFor toks) ms fs.toList with
-        | .ok r => "ok " ++ " ".intercalate (fieldsToks (Fields.ofList r))
+        | .ok r => "ok { " ++ " ".intercalate (fieldsToks (Fields.ofList r))
         | .err c => "err " ++ c
         | .panic c => "panic " ++ c
       | none => "bad-chain"
@@ -214,6 +249,27 @@ def handleTf : List String → String
         | none => "bad-env"
       | none => "bad-op"
     | _, _, _ => "bad-op"
+  | "reverse" :: chain :: toks =>
+    -- tf reverse <chain> <fields> { <val>* } <n> <env-style entries giving the scanner tokens of string fills>
+    match specsOf chain, parseTop toks with
+    | some specs, some (fs, r) =>
+      match parseVal (r.length + 1) r with
+      | some (.struct vals, n :: rest) =>
+        match n.toNat? with
+        | some n =>
+          match parseEnvEntries n rest with
+          | some es =>
+            match chainOfSpecs (fuelFor toks) (parseString (tokTableOf es)) specs with
+            | some ms =>
+              match reverse (fuelFor toks) ms fs.toList vals with
+              | .ok vs => "ok " ++ valsStr 1000 vs
+              | .err _ => "err"
+              | .panic c => "panic " ++ c
+            | none => "bad-chain"
+          | none => "bad-env"
+        | none => "bad-op"
+      | _ => "bad-val"
+    | _, _ => "bad-op"
   | "envnames" :: chain :: pfx :: toks =>
     match specsOf chain, hexStr pfx, parseTop toks with
     | some specs, some pfx, some (fs, []) =>
